@@ -1,7 +1,376 @@
-//! server-side properties
-use super::*;
+//! Server-side properties: C07 (one reply per request, in order, own header),
+//! C14 (how a connection ends).
 
-pub fn gen_c07(_out: &mut Out, _rng: &mut Rng, _thorough: bool) {}
-pub fn mon_c07(_out: &mut Out, _l: &str, _r: &str) {}
-pub fn gen_c14(_out: &mut Out, _rng: &mut Rng, _thorough: bool) {}
-pub fn mon_c14(_out: &mut Out, _l: &str, _r: &str) {}
+use super::stream::{parse_events, split_rtu_clean};
+use super::*;
+use crate::run::Svc;
+use crate::spec::MbapItem;
+
+fn frame(kind: &str, tid: u16, unit: u8, pdu: &[u8]) -> Vec<u8> {
+    if kind == "tcp" {
+        spec::mbap(tid, unit, pdu)
+    } else {
+        spec::rtu_frame(unit, pdu)
+    }
+}
+
+/// a request the server of this kind can receive and decode
+fn srv_request(rng: &mut Rng, kind: &str) -> Request<'static> {
+    loop {
+        let r = gen_request(rng, None);
+        if spec::request_bytes(&r).is_none_or(|b| b.len() > 253) {
+            continue;
+        }
+        if let Request::Custom(fc, _) = &r {
+            if kind == "rtu" {
+                let fc = *rng.pick(&[0x07u8, 0x0B, 0x0C, 0x18]);
+                return Request::Custom(fc, Cow::Owned(if fc == 0x18 { rng.bytes(2) } else { vec![] }));
+            }
+            if MODELLED_REQ.contains(fc) {
+                continue;
+            }
+        }
+        return r;
+    }
+}
+
+fn gen_outcome(rng: &mut Rng, req: &Request<'_>) -> Svc {
+    match rng.below(6) {
+        0 => Svc::Decline,
+        1 => Svc::Exception(tokio_modbus::ExceptionCode::new(rng.u8())),
+        2 => loop {
+            // services may answer with anything that fits
+            let r = gen_response(rng, None);
+            if spec::response_bytes(&r).is_some_and(|b| b.len() <= 253) {
+                break Svc::Reply(r);
+            }
+        },
+        _ => loop {
+            let r = answer_for(rng, req);
+            if spec::response_bytes(&r).is_some_and(|b| b.len() <= 253) {
+                break Svc::Reply(r);
+            }
+        },
+    }
+}
+
+struct Seq {
+    stream: Vec<u8>,
+    svc: Vec<Svc>,
+    /// offsets at which a frame ends
+    bounds: Vec<usize>,
+}
+
+fn gen_sequence(rng: &mut Rng, kind: &str, n: usize) -> Seq {
+    let mut s = Seq { stream: vec![], svc: vec![], bounds: vec![] };
+    for _ in 0..n {
+        let req = srv_request(rng, kind);
+        let f = frame(kind, rng.u16(), rng.u8(), &spec::request_bytes(&req).unwrap());
+        s.stream.extend(f);
+        s.bounds.push(s.stream.len());
+        s.svc.push(gen_outcome(rng, &req));
+    }
+    s
+}
+
+fn svc_tok(svc: &[Svc]) -> String {
+    svc.iter().map(Svc::tok).collect::<Vec<_>>().join(",")
+}
+
+// ================================================================ C07
+
+pub fn gen_c07(out: &mut Out, rng: &mut Rng, thorough: bool) {
+    let n = if thorough { 100_000 } else { 5_000 };
+    for i in 0..n {
+        let kind = if i % 2 == 0 { "tcp" } else { "rtu" };
+        let nreq = rng.range(1, 6);
+        let s = gen_sequence(rng, kind, nreq);
+        let evs = match rng.below(4) {
+            0 => chunks_tok(&[s.stream.clone()]),
+            1 => chunks_tok(&s.stream.iter().map(|b| vec![*b]).collect::<Vec<_>>()),
+            _ => {
+                let parts = rng.composition(s.stream.len());
+                chunks_tok(&chunk(&s.stream, &parts))
+            }
+        };
+        let tail = if rng.chance(1, 3) { ",e" } else { "" };
+        let w = if rng.chance(1, 5) { " w=a1,p,a3,a2,p,a100" } else { "" };
+        monitor_line(out, &format!("srv {kind} svc={}{w} r={evs}{tail}", svc_tok(&s.svc)));
+    }
+    // short sequences under every fragmentation
+    for kind in ["tcp", "rtu"] {
+        for _ in 0..(if thorough { 6 } else { 2 }) {
+            let unit = rng.u8();
+            let f1 = frame(kind, rng.u16(), unit, &[0x11]);
+            let f2 = frame(kind, rng.u16(), unit, if kind == "tcp" { &[0x07] } else { &[0x0B] });
+            let mut s = f1.clone();
+            s.extend(&f2);
+            if s.len() > 16 {
+                s.truncate(f1.len());
+            }
+            for ch in all_chunkings(&s) {
+                monitor_line(out, &format!("srv {kind} svc=X=04,R=RSI:01:1:AB r={}", chunks_tok(&ch)));
+            }
+        }
+    }
+}
+
+/// the event log a correct connection produces for a clean request stream
+fn expected_log(kind: &str, frames: &[((u16, u8), Vec<u8>)], svc: &[Svc]) -> Option<Vec<String>> {
+    let mut log = vec![];
+    for (i, ((tid, unit), pdu)) in frames.iter().enumerate() {
+        let Verdict::Accept(req) = spec::classify_request(pdu) else { return None };
+        log.push(format!("call {} {}", hex8(*unit), request(&req)));
+        match svc.get(i).unwrap_or(&Svc::Decline) {
+            Svc::Decline => {}
+            Svc::Reply(r) => {
+                let b = spec::response_bytes(r)?;
+                if b.len() > 253 {
+                    return None;
+                }
+                log.push(format!("write {}", hex(&frame(kind, *tid, *unit, &b))));
+            }
+            Svc::Exception(e) => {
+                let code: u8 = (*e).into();
+                log.push(format!("write {}", hex(&frame(kind, *tid, *unit, &[pdu[0] | 0x80, code]))));
+            }
+        }
+    }
+    Some(log)
+}
+
+fn split_frames(kind: &str, data: &[u8]) -> Option<Vec<((u16, u8), Vec<u8>)>> {
+    if kind == "tcp" {
+        spec::split_mbap(data)
+            .into_iter()
+            .map(|f| match f {
+                MbapItem::Frame(t, u, p) => Some(((t, u), p)),
+                _ => None,
+            })
+            .collect()
+    } else {
+        Some(split_rtu_clean(data, true)?.into_iter().map(|(u, p)| ((0, u), p)).collect())
+    }
+}
+
+/// merge consecutive `write` entries (the transport may accept a frame in pieces)
+fn merge_writes(ps: &[&str]) -> Vec<String> {
+    let mut out: Vec<String> = vec![];
+    for p in ps {
+        if let (Some(h), Some(last)) = (p.strip_prefix("write "), out.last_mut()) {
+            if last.starts_with("write ") {
+                last.push_str(h);
+                continue;
+            }
+        }
+        out.push((*p).to_string());
+    }
+    out
+}
+
+pub fn mon_c07(out: &mut Out, l: &str, r: &str) {
+    let t: Vec<&str> = l.split(' ').collect();
+    if t[0] != "srv" {
+        return;
+    }
+    let kind = t[1];
+    let fields = &t[2..];
+    let pe = parse_events(field("r", fields));
+    let Some(svc) = p_list(field("svc", fields), Svc::parse) else { return };
+    let Some(frames) = split_frames(kind, &pe.data) else { return };
+    let Some(mut expect) = expected_log(kind, &frames, &svc) else { return };
+    // write faults are C14's business
+    if field("w", fields).contains('x') || field("w", fields).contains('z') {
+        return;
+    }
+    expect.push(if pe.ends_with_eof { "end finished".into() } else { "end blocked".into() });
+    let ps = parts(r);
+    let got = merge_writes(&ps);
+    out.check(got == expect, || {
+        let i = got.iter().zip(expect.iter()).position(|(a, b)| a != b).unwrap_or(got.len().min(expect.len()));
+        format!("connection log differs at entry {i}: expected `{}` got `{}`", super::codec::trunc(expect.get(i).map_or("<nothing>", |s| s)), super::codec::trunc(got.get(i).map_or("<nothing>", |s| s)))
+    }, l);
+}
+
+// ================================================================ C14
+
+pub fn gen_c14(out: &mut Out, rng: &mut Rng, thorough: bool) {
+    let seqs = if thorough { 500 } else { 50 };
+    for i in 0..seqs {
+        let kind = if i % 2 == 0 { "tcp" } else { "rtu" };
+        let nreq = rng.range(1, 4);
+        let s = gen_sequence(rng, kind, nreq);
+        if s.stream.len() > 120 {
+            continue;
+        }
+        let svc = svc_tok(&s.svc);
+        // end of stream at every byte offset
+        for cut in 0..=s.stream.len() {
+            let pre = &s.stream[..cut];
+            let evs = if pre.is_empty() {
+                "e".to_string()
+            } else {
+                let parts = rng.composition(pre.len());
+                format!("{},e", chunks_tok(&chunk(pre, &parts)))
+            };
+            monitor_line(out, &format!("srv {kind} svc={svc} r={evs}"));
+        }
+        // a read error at a few offsets
+        for _ in 0..3 {
+            let cut = rng.below(s.stream.len() + 1);
+            let pre = &s.stream[..cut];
+            let evs = if pre.is_empty() { "xk1".to_string() } else { format!("d{},xk1", hex_raw(pre)) };
+            monitor_line(out, &format!("srv {kind} svc={svc} r={evs}"));
+        }
+        // a reply that cannot be written, at every byte offset of the reply stream
+        let total_out: usize = 40;
+        for cut in 0..total_out {
+            let fault = *rng.pick(&["xk1", "xbp", "z", "xk2"]);
+            let w = if cut == 0 { fault.to_string() } else { format!("a{cut},{fault}") };
+            monitor_line(out, &format!("srv {kind} svc={svc} w={w} r=d{}", hex_raw(&s.stream)));
+        }
+    }
+    // every class of malformed input, after some good requests
+    for i in 0..(if thorough { 20_000 } else { 1_500 }) {
+        let kind = if i % 2 == 0 { "tcp" } else { "rtu" };
+        let nreq = rng.range(0, 3);
+        let s = gen_sequence(rng, kind, nreq);
+        let mut stream = s.stream.clone();
+        let bad: Vec<u8> = match (kind, rng.below(5)) {
+            ("tcp", 0) => {
+                let mut f = spec::mbap(rng.u16(), rng.u8(), &[0x11]);
+                f[2] = rng.u8();
+                f[3] = rng.u8() | 1;
+                f
+            }
+            ("tcp", 1) => {
+                let mut f = spec::mbap(rng.u16(), rng.u8(), &[]);
+                f[5] = 0;
+                f
+            }
+            (_, 2) => frame(kind, rng.u16(), rng.u8(), &[0x05, 0x00, 0x01, 0x12, 0x34]),
+            (_, 3) => frame(kind, rng.u16(), rng.u8(), &[0x10, 0x00, 0x01, 0x00, 0x02, 0x03, 1, 2, 3]),
+            ("tcp", _) => frame(kind, rng.u16(), rng.u8(), &[0x80 | rng.u8(), 1, 2]),
+            _ => (0..30).map(|_| 0x80 | (rng.u8() & 0x40)).collect(),
+        };
+        stream.extend(&bad);
+        // more good requests after the bad one must not be served
+        let after = gen_sequence(rng, kind, 1);
+        stream.extend(&after.stream);
+        let mut svc = s.svc.clone();
+        svc.push(Svc::Reply(Response::ReadCoils(vec![true; 8])));
+        svc.push(Svc::Reply(Response::ReadCoils(vec![false; 8])));
+        let evs = if rng.bool() {
+            chunks_tok(&[stream.clone()])
+        } else {
+            let parts = rng.composition(stream.len());
+            chunks_tok(&chunk(&stream, &parts))
+        };
+        monitor_line(out, &format!("srv {kind} svc={} r={evs}", svc_tok(&svc)));
+    }
+}
+
+pub fn mon_c14(out: &mut Out, l: &str, r: &str) {
+    let t: Vec<&str> = l.split(' ').collect();
+    if t[0] != "srv" {
+        return;
+    }
+    let kind = t[1];
+    let fields = &t[2..];
+    let pe = parse_events(field("r", fields));
+    let Some(svc) = p_list(field("svc", fields), Svc::parse) else { return };
+    let ps = parts(r);
+    let end = ps.last().copied().unwrap_or("");
+    let calls: Vec<&str> = ps.iter().copied().filter(|p| p.starts_with("call ")).collect();
+    out.check(!r.contains("panic"), || "connection task panicked".into(), l);
+    // the complete well-formed requests at the head of the stream
+    let mut good: Vec<((u16, u8), Vec<u8>)> = vec![];
+    let mut clean_end = true; // the data ends on a frame boundary and everything before is well-formed
+    let mut i = 0usize;
+    let data = &pe.data;
+    while i < data.len() {
+        let item = if kind == "tcp" {
+            match spec::split_mbap(&data[i..]).into_iter().next() {
+                Some(MbapItem::Frame(t, u, p)) => Some(((t, u), p.clone(), 7 + p.len())),
+                _ => None,
+            }
+        } else {
+            // one clean RTU frame at the head?
+            (4..=(data.len() - i).min(260)).find_map(|n| {
+                split_rtu_clean(&data[i..i + n], true).filter(|v| v.len() == 1).map(|v| ((0u16, v[0].0), v[0].1.clone(), n))
+            })
+        };
+        match item {
+            Some((h, p, n)) if matches!(spec::classify_request(&p), Verdict::Accept(_)) => {
+                good.push((h, p));
+                i += n;
+            }
+            _ => {
+                clean_end = false;
+                break;
+            }
+        }
+    }
+    let wf = field("w", fields);
+    let write_fault = wf.contains('x') || wf.contains('z');
+    if write_fault {
+        // exactly one error report; nothing is served after the request whose reply failed
+        out.check(end.starts_with("end failed:") || end == "end blocked" || end == "end finished", || format!("unexpected end `{end}`"), l);
+        let replies_before_fault = svc.iter().take(calls.len().saturating_sub(1)).filter(|s| !matches!(s, Svc::Decline)).count();
+        let _ = replies_before_fault;
+        if end.starts_with("end failed:") {
+            let fault = wf.split(',').find(|e| e.starts_with('x') || *e == "z").unwrap_or("");
+            let expect = if fault == "z" { "end failed:wz".to_string() } else { format!("end failed:{}", &fault[1..]) };
+            out.check(end == expect, || format!("write fault `{fault}` must end the connection with `{expect}`, got `{end}`"), l);
+            // the failing reply belongs to the last request served
+            out.check(calls.len() <= good.len(), || "more requests served than were received".into(), l);
+        }
+        return;
+    }
+    let expect_calls: Vec<String> = good
+        .iter()
+        .map(|((_, u), p)| match spec::classify_request(p) {
+            Verdict::Accept(q) => format!("call {} {}", hex8(*u), request(&q)),
+            _ => unreachable!(),
+        })
+        .collect();
+    // responses that cannot be encoded end the connection early: not this property's inputs
+    if svc.iter().take(good.len()).any(|s| matches!(s, Svc::Reply(r) if spec::response_bytes(r).is_none_or(|b| b.len() > 253))) {
+        return;
+    }
+    let last_ev = field("r", fields).rsplit(',').next().unwrap_or("");
+    if clean_end {
+        out.check(calls == expect_calls, || format!("served requests differ from the complete requests received: {} vs {}", calls.len(), expect_calls.len()), l);
+        if last_ev == "e" {
+            out.check(end == "end finished", || format!("peer closed on a frame boundary but the connection ended with `{end}`"), l);
+        } else if let Some(k) = last_ev.strip_prefix('x') {
+            out.check(end == format!("end failed:{k}"), || format!("read error `{k}` must end the connection with one report of it, got `{end}`"), l);
+        } else {
+            out.check(end == "end blocked", || format!("connection ended with `{end}` while the peer is still connected"), l);
+        }
+    } else {
+        // something malformed or incomplete follows the good requests: they are all served,
+        // nothing after them is, and the task ends with an error report once the input is
+        // known to be bad (for an incomplete frame: at end of stream)
+        if kind == "tcp" {
+            out.check(calls == expect_calls, || format!("served requests differ from the complete requests before the fault: {:?} vs {:?}", calls.len(), expect_calls.len()), l);
+        } else {
+            // RTU resynchronises after line noise: later frames may legitimately be served
+            let ok = calls.len() >= expect_calls.len() && calls[..expect_calls.len()] == expect_calls[..];
+            out.check(ok, || format!("the complete requests before the fault were not all served: {:?} vs {:?}", calls.len(), expect_calls.len()), l);
+        }
+        let rest = &data[i..];
+        let incomplete_only = if kind == "tcp" {
+            matches!(spec::split_mbap(rest).first(), Some(MbapItem::Incomplete))
+        } else {
+            false
+        };
+        if last_ev == "e" {
+            out.check(end.starts_with("end failed:"), || format!("stream ended inside a frame / after malformed input, but the connection ended with `{end}`"), l);
+        } else if incomplete_only && !pe.has_fault {
+            out.check(end == "end blocked", || format!("incomplete frame: expected the task to wait, got `{end}`"), l);
+        } else if kind == "tcp" && !pe.has_fault {
+            out.check(end.starts_with("end failed:"), || format!("malformed input must end the connection with an error report, got `{end}`"), l);
+        }
+    }
+}
